@@ -1,3 +1,4 @@
+import AquaVerif.Proofs.CatalogueCfg
 import AquaVerif.Proofs.CropCalendar
 import AquaVerif.Proofs.RunClosedRw
 import AquaVerif.Proofs.CropFull
@@ -330,5 +331,33 @@ theorem thermal_calendar_ordered {F : Fn α} {c : CalGDDIn α} {temps : List (α
     o.days.hiEndCD ≤ o.days.maturityCD ∧ o.days.maturityCD < 365 ∧ 0 ≤ o.days.yldFormCD :=
   calendarInit_order h hy hm
 end calendarGdd
+
+/-! ### run level, catalogue configurations (`Proofs/Catalogue*.lean`): every hypothesis is membership in a table
+regenerated from the sources, a fact about initialisation outputs, or a premise on the weather -/
+
+section catalogueRun
+open Aqua.Response Aqua.HarvestIndexReal Aqua.Generated
+
+/-- **Run level, catalogue configurations.** The C05 envelope in every reachable state and at both
+ends of every simulated day, `ccx_act ≤ CCx`, harvest index and biomass non-decreasing within a
+season, for every run of every catalogue configuration with `ET0 > 0`. -/
+theorem catalogue_run_crop_envelope {cfg : RunCfg ℝ} {s : RunState ℝ} (h : CatCfg cfg)
+    (het : ∀ t, 0 < (cfg.weather t).et0) (hr : RunReach realFn realTrig cfg s)
+    (hR : ∀ d ∈ s.daysRev, ResidualW d) :
+    (-1 ≤ s.season ∧ CropEnv realFn (paramsOf cfg s.season false) s.day ∧
+        RunInvT cfg ((ageMax : ℚ) : ℝ) s ∧ RunInvJ realFn cfg s) ∧
+      ∀ d ∈ s.daysRev, CropEnv realFn d.P d.st ∧ CropEnv realFn d.P d.r.state ∧
+        d.r.state.ccxAct ≤ d.P.cx.cc.ccx ∧ 0 ≤ d.r.flux.trPot ∧
+        (d.D.gs = true → d.st.hi ≤ d.r.state.hi ∧ d.st.biomass ≤ d.r.state.biomass ∧
+          0 ≤ d.r.flux.tr ∧ d.r.flux.tr ≤ d.r.flux.trPot) ∧
+        (0 ≤ d.st.ccxW ∧ d.st.ccxW ≤ d.P.cx.cc.ccx) :=
+  Aqua.catalogue_run_crop_envelope h het hr hR
+
+/-- the catalogue crops for which `CanopyDevEnd ≤ Senescence` (premise of the rewatering cap)
+fails on raw parameters -/
+theorem canopyDevEnd_exceptions : ∀ c ∈ cropFullTable,
+    (c.DevEndOK ↔ c.name ∉ ["Barley", "BarleyGDD", "PaddyRice", "PaddyRiceGDD"]) :=
+  catalogue_devEnd_exceptions
+end catalogueRun
 
 end Aqua.C05
